@@ -797,6 +797,26 @@ int vf_special_seeds(int res, int nper, H3Index *out, int cap) {
     }
     return m;
 }
+/* cells at the quarter points and around the midpoint of each of the 30 icosahedron edges, on the edge and 1e-6 .. 1e-3 rad
+ * to either side of it (the face-assignment slivers: where a point is attributed to one of two faces) */
+int vf_edge_offset_seeds(int res, H3Index *out, int cap) {
+    static const ld T[7] = {0.25L, 0.496L, 0.498L, 0.5L, 0.502L, 0.504L, 0.75L};
+    static const ld OFF[19] = {0, 1e-6L, -1e-6L, 3e-6L, -3e-6L, 1e-5L, -1e-5L, 2e-5L, -2e-5L, 3e-5L, -3e-5L, 5e-5L, -5e-5L, 1e-4L, -1e-4L, 3e-4L, -3e-4L, 1e-3L, -1e-3L};
+    int n = 0;
+    vf_ico_init();
+    for (int e = 0; e < 30; e++) {
+        V3 a = VF_ICO_V[VF_ICO_E[e][0]], b = VF_ICO_V[VF_ICO_E[e][1]];
+        V3 nrm = v3_norm(v3_cross(a, b));
+        for (int ti = 0; ti < 7; ti++)
+            for (int oi = 0; oi < 19 && n < cap; oi++) {
+                V3 m = v3_norm(v3_add(v3_scale(a, 1 - T[ti]), v3_scale(b, T[ti])));
+                LatLng g = v3_to_ll(v3_norm(v3_add(m, v3_scale(nrm, OFF[oi]))));
+                H3Index h;
+                if (!latLngToCell(&g, res, &h)) out[n++] = h;
+            }
+    }
+    return n;
+}
 uint64_t vf_hostile_index(vf_rng *r) {
     int res = (int)vf_below(r, 16);
     uint64_t h = vf_rand_cell(r, res);
